@@ -221,17 +221,41 @@ def playback_batch(repo, kdir, feat, obls, log, jobs=8, timeout_s=900, max_nativ
         return out
     files = sorted(set(os.path.join(kdir, o["module"] + ".rs") for o in obls))
     before = {f: open(f).read() for f in files}
-    cmd = base_cmd(feat) + ["-Z", "concrete-playback", "--concrete-playback=inplace", "--output-format", "terse",
-                            "--exact", "--harness-timeout", "%ds" % timeout_s]  # (--concrete-playback excludes --jobs)
+    # Kani inserts the generated tests into the harness file using the line numbers of ONE compilation: two failed
+    # harnesses of the same file in one invocation corrupt each other's insertion.  Hence rounds with at most one
+    # harness per file.
+    rounds, seen = [], {}
     for o in obls:
-        cmd += ["--harness", o["harness"]]
-    try:
-        p = subprocess.run(cmd, cwd=repo, env=env, stdout=subprocess.PIPE, stderr=subprocess.STDOUT, text=True,
-                           timeout=timeout_s * 2 + 600)
-        log.write("\n$ %s\n%s\n" % (" ".join(cmd), p.stdout[-30000:]))
-    except subprocess.TimeoutExpired:
-        log.write("\n$ %s\n[timeout]\n" % " ".join(cmd))
-        return out
+        k = seen.get(o["module"], 0)
+        seen[o["module"]] = k + 1
+        while len(rounds) <= k:
+            rounds.append([])
+        rounds[k].append(o)
+    for rnd in rounds:
+        cmd = base_cmd(feat) + ["-Z", "concrete-playback", "--concrete-playback=inplace", "--output-format", "terse",
+                                "--exact", "--harness-timeout", "%ds" % timeout_s]  # (--concrete-playback excludes --jobs)
+        for o in rnd:
+            cmd += ["--harness", o["harness"]]
+        try:
+            p = subprocess.run(cmd, cwd=repo, env=env, stdout=subprocess.PIPE, stderr=subprocess.STDOUT, text=True,
+                               timeout=timeout_s * 2 + 600)
+            log.write("\n$ %s\n%s\n" % (" ".join(cmd), p.stdout[-30000:]))
+        except subprocess.TimeoutExpired:
+            log.write("\n$ %s\n[timeout]\n" % " ".join(cmd))
+        # Kani writes the text of the failed check into a `///` comment; a multi-line assertion text leaves its
+        # continuation lines uncommented, which breaks the native build: comment them.
+        for f in files:
+            lines, fixed, in_doc = open(f).read().split("\n"), [], False
+            for ln in lines:
+                if ln.startswith("/// Test generated for harness"):
+                    in_doc = True
+                elif ln.strip() == "#[test]":
+                    in_doc = False
+                elif in_doc and ln.strip() and not ln.startswith("///"):
+                    ln = "/// " + ln
+                fixed.append(ln)
+            if fixed != lines:
+                open(f, "w").write("\n".join(fixed))
     # native build: examples/tests need chrono and are not part of the proof; drop them from the scratch copy
     for d in ("examples", "tests"):
         shutil.rmtree(os.path.join(repo, d), ignore_errors=True)
